@@ -68,10 +68,13 @@ func (e *Engine) info(fn *ssa.Function) *fnInfo {
 	if v, ok := e.fnInfos.Load(fn); ok {
 		return v.(*fnInfo)
 	}
-	if fn.Blocks == nil && fn.Pkg != nil && fn.Synthetic == "" {
+	// Build() is a sync.Once per package: calling it unconditionally makes a worker wait for
+	// a build another worker started. Testing fn.Blocks first is a race: a body that is still
+	// being built (blocks present, allocs not yet lifted to phis) would get an incomplete slot map.
+	if fn.Pkg != nil {
 		fn.Pkg.Build()
 	}
-	if fn.Blocks == nil && fn.Origin() != nil && fn.Origin().Pkg != nil {
+	if fn.Origin() != nil && fn.Origin().Pkg != nil {
 		fn.Origin().Pkg.Build()
 	}
 	fi := &fnInfo{slots: map[ssa.Value]int{}, name: fn.String()}
@@ -834,6 +837,18 @@ func (x *Exec) prepareCall(fr *frame, call *ssa.CallCommon) (fn Value, args []Va
 	v := fr.get(call.Value)
 	if call.Method == nil {
 		fn = v
+		if f, ok := v.(*ssa.Function); ok && f == nil {
+			// func-typed package variable of a blackholed package (e.g. sourcegraph/log's
+			// `String = zap.String`): its init never runs, so the variable is nil; the call is a no-op.
+			if u, ok := call.Value.(*ssa.UnOp); ok && u.Op == token.MUL {
+				if g, ok := u.X.(*ssa.Global); ok && g.Pkg != nil && x.eng.isBlackhole(g.Pkg.Pkg.Path()) {
+					if sig, ok := deref(g.Type()).Underlying().(*types.Signature); ok {
+						x.stubSeen["blackhole-var:"+g.Pkg.Pkg.Path()+"."+g.Name()] = true
+						fn = &NativeFunc{name: g.Name(), f: func(x *Exec, args []Value) Value { return zeroResults(sig) }}
+					}
+				}
+			}
+		}
 	} else {
 		recv := v.(Iface)
 		if recv.T == nil {
